@@ -41,10 +41,23 @@ fn c06_px(rng: &mut Rng, i: u64) -> [f32; 3] {
             p[rng.below(3) as usize] = rng.range(-0.5, 2.0) as f32;
             p
         }
-        2 => {
-            let g = rng.range(0.0, 1.0) as f32;
-            [g, g, g]
-        }
+        2 => match rng.below(3) {
+            0 => {
+                let g = rng.range(0.0, 1.0) as f32;
+                [g, g, g]
+            }
+            1 => {
+                // faintly tinted near-neutral pixels
+                let g = rng.range(0.0, 2.0);
+                let s = 10f64.powf(-2.0 - 5.0 * rng.unit());
+                [g as f32, (g + (rng.unit() - 0.5) * s) as f32, (g + (rng.unit() - 0.5) * s) as f32]
+            }
+            _ => {
+                // signed zeros and tiny magnitudes
+                let v = [0.0f32, -0.0, 1e-30, -1e-30, 1.0, 0.5, 1.3e-5, -1.3e-5];
+                [rng.pick(&v), rng.pick(&v), rng.pick(&v)]
+            }
+        },
         3 => [rng.unit() as f32, rng.unit() as f32, rng.unit() as f32],
         _ => [rng.range(-0.5, 2.0) as f32, rng.range(-0.5, 2.0) as f32, rng.range(-0.5, 2.0) as f32],
     }
@@ -222,7 +235,33 @@ impl Scalar for f64 {
 fn gen_matrix(rng: &mut Rng, kind: u64) -> M3 {
     let r = |rng: &mut Rng| rng.range(-2.0, 2.0);
     match kind {
-        0 => [[r(rng), r(rng), r(rng)], [r(rng), r(rng), r(rng)], [r(rng), r(rng), r(rng)]],
+        0 => match rng.below(4) {
+            0 => {
+                // a rotation (about a random axis order) scaled by a factor near 1: nearly orthonormal
+                let (a, b) = (rng.range(0.0, 6.283), rng.range(0.0, 6.283));
+                let s = if rng.coin() { 1.0 } else { rng.range(0.99, 1.01) };
+                let rz = [[a.cos(), -a.sin(), 0.0], [a.sin(), a.cos(), 0.0], [0.0, 0.0, 1.0]];
+                let rx = [[1.0, 0.0, 0.0], [0.0, b.cos(), -b.sin()], [0.0, b.sin(), b.cos()]];
+                let mut m = mat_mul(rz, rx);
+                for row in m.iter_mut() {
+                    for v in row.iter_mut() {
+                        *v *= s;
+                    }
+                }
+                m
+            }
+            1 => {
+                // wide dynamic range: entries from 1e-6 to 2
+                let mut m = [[0.0; 3]; 3];
+                for row in m.iter_mut() {
+                    for v in row.iter_mut() {
+                        *v = if rng.coin() { 1.0 } else { -1.0 } * 2.0 * 10f64.powf(-6.0 * rng.unit() * rng.unit());
+                    }
+                }
+                m
+            }
+            _ => [[r(rng), r(rng), r(rng)], [r(rng), r(rng), r(rng)], [r(rng), r(rng), r(rng)]],
+        },
         1 => {
             let mut m = [[0.0; 3]; 3];
             for i in 0..3 {
@@ -304,8 +343,10 @@ fn gen_matrix(rng: &mut Rng, kind: u64) -> M3 {
 }
 const MKINDS: [&str; 8] = ["random", "diagonal", "signed-permutation", "small-integer", "single-off-diagonal", "det-just-above-0.5", "colour-matrices", "large-entries"];
 
+const C19_OPS: [&str; 8] = ["mul_vec", "mul_arr", "mul_mat", "cross", "dot", "scalar_div", "component_mul", "matrix.scalar_div"];
+
 macro_rules! c19_instance {
-    ($T:ty, $name:expr, $a:expr, $b:expr, $v:expr, $u:expr, $div:expr, $worst:expr, $winv:expr, $flags:expr) => {{
+    ($T:ty, $name:expr, $a:expr, $b:expr, $v:expr, $u:expr, $div:expr, $worst:expr, $winv:expr, $flags:expr, $per:expr) => {{
         use yuvxyb_math::{ColVector, Matrix, RowVector};
         let cast = |m: &M3| -> M3 {
             let mut o = [[0.0; 3]; 3];
@@ -340,7 +381,12 @@ macro_rules! c19_instance {
         let mb = mk(&b);
         let mut chk = |op: &'static str, got: f64, want: f64| {
             let e = (got - want).abs() / want.abs().max(1.0);
-            $worst.upd(if e.is_nan() { f64::NAN } else { e }, (op, $name, got, want));
+            let e = if e.is_nan() { f64::NAN } else { e };
+            $worst.upd(e, (op, $name, got, want));
+            let slot = C19_OPS.iter().position(|o| *o == op).unwrap_or(0) * 2 + usize::from($name == "f64");
+            if e > $per[slot] || e.is_nan() {
+                $per[slot] = e;
+            }
         };
         // mul_vec / mul_arr
         let cv = ColVector::<$T>::new(v[0] as $T, v[1] as $T, v[2] as $T);
@@ -391,14 +437,20 @@ macro_rules! c19_instance {
         chk("dot", rv.dot(&ru) as f64, v[0] * u[0] + v[1] * u[1] + v[2] * u[2]);
         let sd = rv.scalar_div(div as $T).values();
         let cm = rv.component_mul(&ru).values();
+        // a quotient is compared only where the exact value is representable in this instance
+        let tmax = <$T>::MAX as f64 / 4.0;
         for i in 0..3 {
-            chk("scalar_div", sd[i] as f64, v[i] / div);
+            if div != 0.0 && (v[i] / div).abs() < tmax {
+                chk("scalar_div", sd[i] as f64, v[i] / div);
+            }
             chk("component_mul", cm[i] as f64, v[i] * u[i]);
         }
         let msd = vals(ma.scalar_div(div as $T));
         for i in 0..3 {
             for j in 0..3 {
-                chk("matrix.scalar_div", msd[i][j], a[i][j] / div);
+                if div != 0.0 && (a[i][j] / div).abs() < tmax {
+                    chk("matrix.scalar_div", msd[i][j], a[i][j] / div);
+                }
             }
         }
         // accessors
@@ -441,7 +493,7 @@ pub fn c19(ctx: &Ctx) {
         let mut lw = Worst::new();
         let mut lwi = Worst::new();
         let mut lf = [0u64; 4];
-        let mut per_op: std::collections::BTreeMap<String, f64> = Default::default();
+        let mut per = [0.0f64; 16];
         let mut ninv = 0u64;
         for i in a..b {
             let kind = i % 8;
@@ -455,6 +507,15 @@ pub fn c19(ctx: &Ctx) {
             if div.abs() < 1.0 / 1024.0 {
                 div = 0.5;
             }
+            let mut v = v;
+            if i % 64 == 5 {
+                // element-wise division by very small (also subnormal) scalars; some components exactly zero
+                div = rng.pick(&[2.5e-39f64, 1e-38, -3e-40, 1e-30, 1e-310, 4e-320, 1e-300]);
+                v[rng.below(3) as usize] = 0.0;
+                if rng.coin() {
+                    v[rng.below(3) as usize] = 1e-3;
+                }
+            }
             let mut h = 0u64;
             for r in &ma {
                 for x in r {
@@ -463,17 +524,11 @@ pub fn c19(ctx: &Ctx) {
             }
             distinct.insert(hash_mix(h, v[0].to_bits()));
             let mut one = Worst::new();
-            if c19_instance!(f32, "f32", &ma, &mb, &v, &u, div, one, lwi, lf) {
+            if c19_instance!(f32, "f32", &ma, &mb, &v, &u, div, one, lwi, lf, per) {
                 ninv += 1;
             }
-            if c19_instance!(f64, "f64", &ma, &mb, &v, &u, div, one, lwi, lf) {
+            if c19_instance!(f64, "f64", &ma, &mb, &v, &u, div, one, lwi, lf, per) {
                 ninv += 1;
-            }
-            if let Some((op, inst, _, _)) = one.at {
-                let e = per_op.entry(format!("{op}<{inst}>")).or_insert(0.0);
-                if one.err > *e || one.err.is_nan() {
-                    *e = one.err;
-                }
             }
             lw.merge(&one);
         }
@@ -485,10 +540,10 @@ pub fn c19(ctx: &Ctx) {
             g[i] += lf[i];
         }
         let mut gp = worst_per_op.lock().unwrap();
-        for (k, v) in per_op {
-            let e = gp.entry(k).or_insert(0.0);
-            if v > *e || v.is_nan() {
-                *e = v;
+        for (i, v) in per.iter().enumerate() {
+            let e = gp.entry(format!("{}<{}>", C19_OPS[i / 2], if i % 2 == 0 { "f32" } else { "f64" })).or_insert(0.0);
+            if *v > *e || v.is_nan() {
+                *e = *v;
             }
         }
     });
